@@ -67,9 +67,9 @@ def run(ctx):
         th = c["threshold"]
         for s in c["shares"]:
             both = any(x < th for x in s["leases"]) and any(x >= th for x in s["leases"])
-            ctx.count(json.dumps([cfg_, s["type"], sorted(s["leases"])], sort_keys=True) if (both or s["id"] not in exp) else None)
+            ctx.count(json.dumps([cfg_, s["type"], s.get("sec"), sorted(s["leases"])], sort_keys=True) if (both or s["id"] not in exp) else None)
             e, g = s["id"] in exp, s["id"] in real
-            r1 = dict(rep, share={"type": s["type"], "lease_renewal_times": sorted(s["leases"])}, threshold=th,
+            r1 = dict(rep, share={"type": s["type"], "lease_renewal_times": sorted(s["leases"]), "cancel_secrets": s.get("sec")}, threshold=th,
                       spec_survives=e, real_survives=g, spec_leases_after=exp.get(s["id"]), real_leases_after=real.get(s["id"]))
             if e and not g:
                 what = "share_deleted_while_disabled" if not cfg_["enabled"] else "kept_share_deleted"
